@@ -31,3 +31,57 @@ package arp
 //@ func (*ScanResult).ID
 //@   props C14
 //@   ensures ret == r.IP
+
+// ---------------------------------------------------------------------------------------------
+// C11: ARP cache. Put and Get use the same key (the address's String form) and hold the lock around the map
+// access; Get changes nothing; the MAC chosen for a request is the cache entry of THAT address, else the gateway's.
+//@ func (*Cache).Put
+//@   props C11
+//@   observe Lock, Unlock, String
+//@   entry row put: [call Lock(_) ; call String(ip) as (k) ; call Unlock(_)]
+//@                    when mapin(c.cache, k) && mapget(c.cache, k) == mac && (forall j int :: j != k ==> mapin(c.cache, j) == pre(mapin(c.cache, j)) && mapget(c.cache, j) == pre(mapget(c.cache, j))) -> exit
+//@ func (*Cache).Get
+//@   props C11
+//@   observe RLock, RUnlock, String
+//@   modifies nothing
+//@   entry row get: [call RLock(_) ; call String(ip) as (k) ; call RUnlock(_)] when (mapin(c.cache, k) ==> ret == mapget(c.cache, k)) && (!mapin(c.cache, k) ==> ret == nil) -> exit
+//@ func NewCacheRequestGenerator$1
+//@   props C11
+//@   observe Get
+//@   entry row cached:  [call Get(cache, ip) as (mac)] when mac != nil && ret == mac -> exit
+//@   entry row gateway: [call Get(cache, ip) as (mac)] when mac == nil && ret == gatewayMAC -> exit
+
+// reading a cache file back (the scan's own output): per line the line's OWN members decide
+//@ spec ahasip(line int) bool
+//@ spec ahasmac(line int) bool
+//@ spec aip(line int) int
+//@ spec amac(line int) int
+//@ func (*ScanResult).UnmarshalJSON
+//@   trusted generated easyjson decoder (result_easyjson.go): assigns exactly the members present in the input; "ip" -> IP, "mac" -> MAC
+//@   modifies v.IP, v.MAC, v.Vendor
+//@   ensures ret == nil ==> v.IP == ite(ahasip(data), aip(data), old(v.IP)) && v.MAC == ite(ahasmac(data), amac(data), old(v.MAC))
+//@ func FillCache
+//@   props C11
+//@   observe (*bufio.Scanner).Scan, (*bufio.Scanner).Bytes, (*bufio.Scanner).Err, UnmarshalJSON, net.ParseIP, net.ParseMAC, Put
+//@   loop 0 row eof:     [call Scan(_) as (more) ; call Err(_) as (e)] when !more && ret == e -> exit
+//@   loop 0 row badjson: [call Scan(_) as (more) ; call Bytes(_) as (b) ; call UnmarshalJSON(_, b) as (je)] when more && je != nil && ret == je -> exit
+//@   loop 0 row badip:   [call Scan(_) as (more) ; call Bytes(_) as (b) ; call UnmarshalJSON(_, b) as (je) ; call net.ParseIP(bind_s) as (ip)]
+//@                          when more && je == nil && s == ite(ahasip(b), aip(b), "") && ip == nil && ret != nil -> exit
+//@   loop 0 row badmac:  [call Scan(_) as (more) ; call Bytes(_) as (b) ; call UnmarshalJSON(_, b) as (je) ; call net.ParseIP(bind_s) as (ip) ; call net.ParseMAC(bind_m) as (mac, me)]
+//@                          when more && je == nil && s == ite(ahasip(b), aip(b), "") && ip != nil && m == ite(ahasmac(b), amac(b), "") && me != nil && ret == me -> exit
+//@   loop 0 row entry:   [call Scan(_) as (more) ; call Bytes(_) as (b) ; call UnmarshalJSON(_, b) as (je) ; call net.ParseIP(bind_s) as (ip) ; call net.ParseMAC(bind_m) as (mac, me) ; call Put(cache, ip, mac)]
+//@                          when more && je == nil && s == ite(ahasip(b), aip(b), "") && ip != nil && m == ite(ahasmac(b), amac(b), "") && me == nil -> continue
+
+// ---------------------------------------------------------------------------------------------
+// C06 / C03 / C11: receive path. A record only when the frame itself decoded to exactly Ethernet/ARP and the ARP
+// addresses are 6-byte hardware / 4-byte protocol addresses; the record carries the ARP SENDER addresses of this frame.
+//@ pred arpchain(d []gopacket.LayerType) = len(d) == 2 && d[0] == layers.LayerTypeEthernet && d[1] == layers.LayerTypeARP
+//@ func (*ScanMethod).ProcessPacketData
+//@   props C06 C03 C11
+//@   observe DecodeLayers, String, Put
+//@   entry row undecodable: [call DecodeLayers(s.parser, data, _) as (e)] when e != nil && ret == e -> exit
+//@   entry row otherframe:  [call DecodeLayers(s.parser, data, _) as (e)] when e == nil && !(arpchain(s.rcvDecoded) && len(s.rcvARP.SourceHwAddress) == 6 && len(s.rcvARP.SourceProtAddress) == 4) && ret == nil -> exit
+//@   entry row record:      [call DecodeLayers(s.parser, data, _) as (e) ; call String(bind_pa) as (ips) ; call String(bind_ha) as (macs) ; call Put(s.results, bind_x)]
+//@                             when e == nil && arpchain(s.rcvDecoded) && len(s.rcvARP.SourceHwAddress) == 6 && len(s.rcvARP.SourceProtAddress) == 4 && ret == nil
+//@                               && pa == s.rcvARP.SourceProtAddress && ha == s.rcvARP.SourceHwAddress
+//@                               && isptr(x, ScanResult) && fresh(asptr(x, ScanResult)) && asptr(x, ScanResult).IP == ips && asptr(x, ScanResult).MAC == macs -> exit
